@@ -443,7 +443,7 @@ pub fn build_catalogue() -> Vec<Subject> {
         Box<[String; 2]> [mem]; Rc<(u8, Vec<u16>)> [mem];
         // bit sequences, bytes, generic arrays
         BitVec<u8, Lsb0> [mem]; BitVec<u8, Msb0> [mem]; BitVec<u16, Lsb0> [mem]; BitVec<u32, Msb0> [mem]; BitVec<u64, Lsb0> [mem]; BitBox<u8, Msb0> [mem];
-        bytes::Bytes [mem]; (u8, bytes::Bytes, u16) [mem]; Vec<bytes::Bytes> [mem, len];
+        bytes::Bytes [mem, twin("Vec<Wu8>")]; (u8, bytes::Bytes, u16) [mem, twin("(u8, Vec<Wu8>, u16)")]; (u8, Vec<Wu8>, u16) [mem]; Vec<bytes::Bytes> [mem, len];
         GenericArray<u8, typenum::U3>; GenericArray<u16, typenum::U7>; GenericArray<String, typenum::U2>;
         // derived
         StructNamed [mem]; StructTuple [mem]; StructUnit [mem]; GenericS<u16> [mem]; GenericS<String> [mem]; WithSkip [mem]; WithCompact [mem];
